@@ -8,10 +8,10 @@ from canmon.ref.sdo_server import RefSdoServer, ServerActor
 class ClientRig:
     """Real SdoClient (RemoteNode on its own Network) <-> RefSdoServer actor."""
 
-    def __init__(self, node_id=5, od=None, mode="inline", timeout=0.005, seed=0, max_delay=0.0, **server_opts):
+    def __init__(self, node_id=5, od=None, mode="inline", timeout=0.005, seed=0, max_delay=0.0, via="listener", **server_opts):
         import canopen
         self.bus = simbus.SimBus(mode=mode, seed=seed, max_delay=max_delay)
-        self.net, self.station = simbus.make_network(self.bus, "master")
+        self.net, self.station = simbus.make_network(self.bus, "master", via=via)
         self.od = od if od is not None else canopen.ObjectDictionary()
         self.node = canopen.RemoteNode(node_id, self.od)
         self.net.add_node(self.node)
